@@ -75,6 +75,10 @@ func init() {
 				c02Sharing(o, r, cs)
 				continue
 			}
+			if r.Intn(8) == 0 {
+				c02PatchIdentity(o, r, cs)
+				continue
+			}
 			f := allFeat()
 			f.Adversarial = true
 			f.Dense = r.Intn(3) == 0
@@ -406,5 +410,75 @@ func setPathJSON(_ map[string]interface{}, path []interface{}, val interface{}, 
 			}
 			cur = l[k]
 		}
+	}
+}
+
+// c02PatchIdentity: a patch with a target whose body spells kind and/or name differently from the target.  The identity
+// fields are targeted only when the entry's options say so — allowNameChange for the name, allowKindChange for the kind,
+// each by itself; every other field the patch does not mention stays as it was, and so does the bystander.
+func c02PatchIdentity(o *oracleRun, r *rand.Rand, cs int64) {
+	kinds := [][2]string{{"StatefulSet", "apps/v1"}, {"Deployment", "apps/v1"}, {"Widget", "example.com/v1"}}
+	tk := kinds[r.Intn(len(kinds))]
+	pk := kinds[r.Intn(len(kinds))]
+	for pk[1] != tk[1] { // the patch keeps the group/version of its target
+		pk = kinds[r.Intn(len(kinds))]
+	}
+	pname := pickS(r, []string{"web", "not-important", "other"})
+	allowName, allowKind := r.Intn(2) == 0, r.Intn(2) == 0
+	res := fmt.Sprintf("apiVersion: %s\nkind: %s\nmetadata:\n  name: web\n  labels:\n    keep: \"012\"\nspec:\n  replicas: 1\n  serviceName: \"yes\"\n---\napiVersion: v1\nkind: ConfigMap\nmetadata:\n  name: bystander\ndata:\n  k: \"on\"\n", tk[1], tk[0])
+	patch := fmt.Sprintf("apiVersion: %s\nkind: %s\nmetadata:\n  name: %s\nspec:\n  replicas: 3\n", pk[1], pk[0], pname)
+	var opts []string
+	if allowName {
+		opts = append(opts, "allowNameChange: true")
+	}
+	if allowKind {
+		opts = append(opts, "allowKindChange: true")
+	}
+	k := "resources:\n- res.yaml\npatches:\n- path: patch.yaml\n  target:\n    kind: " + tk[0] + "\n    name: web\n"
+	if len(opts) > 0 {
+		k += "  options:\n    " + strings.Join(opts, "\n    ") + "\n"
+	}
+	fs := filesys.MakeFsInMemory()
+	files := map[string]string{"/w/res.yaml": res, "/w/patch.yaml": patch, "/w/kustomization.yaml": k}
+	for p, c := range files {
+		fs.WriteFile(p, []byte(c))
+	}
+	in := map[string]interface{}{"scenario": "patch-identity", "allowNameChange": allowName, "allowKindChange": allowKind, "files": files}
+	out, err, pnc := safeBuild(func() (string, error) { return runBuild(fs, "/w", nil) })
+	if pnc != nil || err != nil {
+		o.note("patch-identity-"+errClass(err), in)
+		return
+	}
+	o.note(fmt.Sprintf("patch-identity-ok-name=%v-kind=%v", allowName, allowKind), in)
+	docs, _ := parseDocs(out)
+	wantKind, wantName := tk[0], "web"
+	if allowKind {
+		wantKind = pk[0]
+	}
+	if allowName {
+		wantName = pname
+	}
+	found := false
+	for _, d := range docs {
+		md, _ := d["metadata"].(map[string]interface{})
+		if d["kind"] == "ConfigMap" {
+			if md["name"] != "bystander" || !reflect.DeepEqual(d["data"], map[string]interface{}{"k": "on"}) {
+				o.fail("untargeted-resource-changed", "the bystander of a targeted patch changed", cs, in, d, nil)
+			}
+			continue
+		}
+		found = true
+		if d["kind"] != wantKind || md["name"] != wantName {
+			o.fail("identity-changed-without-option", fmt.Sprintf("patched resource is %v/%v; with allowNameChange=%v allowKindChange=%v the directive targets identity fields so that it must be %s/%s",
+				d["kind"], md["name"], allowName, allowKind, wantKind, wantName), cs, in, fmt.Sprintf("%v/%v", d["kind"], md["name"]), wantKind+"/"+wantName)
+		}
+		sp, _ := d["spec"].(map[string]interface{})
+		lb, _ := md["labels"].(map[string]interface{})
+		if sp["serviceName"] != "yes" || lb["keep"] != "012" {
+			o.fail("untargeted-field-changed", "a field the patch does not mention changed (value or type)", cs, in, d, nil)
+		}
+	}
+	if !found || len(docs) != 2 {
+		o.fail("resource-count", fmt.Sprintf("%d documents in the output, 2 resources in the input", len(docs)), cs, in, len(docs), 2)
 	}
 }
